@@ -3,6 +3,7 @@ import Heathcliff.Proofs.C02K
 import Heathcliff.Proofs.C07L
 import Heathcliff.Proofs.GenValid
 import Heathcliff.Proofs.GenEvalCt2
+import Heathcliff.Proofs.C03S
 /-
   C03 — the algebra of CKKS evaluation is scheme independent: the theorems of C02 (`ct_mul_phase`, `translate_phase`,
   `negate_phase`, `mul_plain_phase`, `add_plain_phase`) hold in any commutative ring and are restated here because the CKKS
@@ -271,4 +272,20 @@ example : HC.GenC.ckks_square_sk true 2 8192 3 true true true true = .ok (3, 1) 
   rw [HC.gl_ckks_square_eq _ _ _ _ _ _ _ _ (by norm_num) (by norm_num) (by norm_num) (by norm_num) (by norm_num)]; decide
 example : HC.GenC.ct_multiply_plain_normal_plan 5 false true 8192 3 .ckks true false = .error .refused := by
   rw [HC.gl_multiply_plain_normal_plan_eq _ _ _ _ _ _ _ _ (by norm_num)]; rfl
+/-! ### scale agreement ("operands whose scales disagree are refused"): `util::are_close_f64`, exact-arithmetic model `areCloseDy` -/
+
+/-- identical scales are accepted -/
+theorem scales_close_self : type_of% @HC.c03s_areClose_self := @HC.c03s_areClose_self
+/-- the verdict is symmetric in the operands -/
+theorem scales_close_symm : type_of% @HC.c03s_areClose_symm := @HC.c03s_areClose_symm
+/-- scales whose relative difference is at least 2^-45 are refused (e.g. a rescaled product s²/q against the nominal s unless q is within
+    2^-45 of s); the statement is in the scaled integers of the definition -/
+theorem scales_far_refused : type_of% @HC.c03s_areClose_far := @HC.c03s_areClose_far
+/-- non-vacuity: 2^40 against 2^40·(1 + 2^-30) (mantissas 2^52 and 2^52 + 2^22 at exponent -12) is refused; against itself accepted;
+    one unit in the last place apart is still accepted (the tolerance of the code is one machine epsilon) -/
+example : HC.areCloseDy 4503599627370496 (-12) 4503599631564800 (-12) = false := by decide
+example : HC.areCloseDy 4503599627370496 (-12) 4503599627370496 (-12) = true := by decide
+example : HC.areCloseDy 4503599627370496 (-12) 4503599627370497 (-12) = true := by decide
+example : HC.areCloseDy 4503599627370496 (-12) 4503599627370498 (-12) = false := by decide
+
 end HC.C03
